@@ -97,7 +97,8 @@ func (t *vterm) eraseLine(r, from, to int) {
 }
 
 func (t *vterm) resize(w, h int) {
-	// no reflow: rows are kept, the window keeps its top, the cursor is clamped
+	// no reflow: rows are cut at the new width, rows below the new bottom are dropped,
+	// the window keeps its top, the cursor is clamped
 	t.w, t.h = w, h
 	// only the active buffer is cut; the inactive one is kept as it is (the
 	// histories restore the size before switching back)
@@ -112,6 +113,9 @@ func (t *vterm) resize(w, h int) {
 		for i := range b.rows {
 			if len(b.rows[i]) > w {
 				b.rows[i] = b.rows[i][:w]
+			}
+			if i >= b.top+h {
+				b.rows[i] = nil // rows below the new bottom are dropped
 			}
 		}
 	}
@@ -233,6 +237,8 @@ func (t *vterm) csi(params string, final byte) {
 		return
 	}
 	switch final {
+	case 'm':
+		// SGR (styling inside content): takes no cell; cell attributes are not modelled
 	case 'A':
 		n := numArg(params, 1)
 		if n == 0 {
